@@ -97,6 +97,9 @@ def slots(shape, alpha, dupvars=False):
         refs = refs + [v + '~e.3' for v in refs]
     elif mode == 'all+aligned0':
         refs = refs + [VARS[0] + '~e.3']
+    elif mode == 'all+alignedself':
+        # alignment whose prefix letter is spelled like the variable itself: a~a.3
+        refs = refs + [v + '~' + v + '.3' for v in refs]
     elif mode == 'none':
         refs = []
     atoms = list(alpha['atoms']) + refs
